@@ -104,6 +104,26 @@ CHECKS = {
          "x reconnect {none, before, after the delay}. TLC validates that the will is published exactly once (publication event + delivery to a watcher with the QoS / RETAIN its subscription yields), not before min(delay, expiry) after the end "
          "of the connection, within 500 ms after it, immediately when the session ends, never after DISCONNECT 0x00 and never after a resume before the delay.",
     note="Real seconds; tolerance windows 200 ms early / 500 ms late / 450 ms around resume decisions. Will properties other than QoS/retain/delay and storing a retained will are not examined."),
+ "C10": dict(
+    level="model_checking", ref="DESIGN.md §4 C10, App. B.1",
+    technique="TLC exhaustive Queue.tla (functional-style queue model with fate map and drop ladder) + transition-coverage replay with probe sequences into the memory queue and the redis queue (RESP fake)",
+    text="Queue.tla states the contract (bounded length, every message exactly one of queued / handed out / dropped-with-reason, FIFO, ids in order to QoS>0 only, nothing expired or oversize handed out, replay of in-flight entries after Init(not clean), "
+         "the drop ladder, counters = contents) with design-level invariants checked by TLC; every emitted transition is replayed on a fresh real queue with a recording Notifier: return value, Notifier calls and the output of a model-predicted probe sequence "
+         "(Init(false); ReadInflight*; Read*) are compared. Targets: mem.New and redis_queue.New over the in-process RESP fake (re-initialisation as new object / same object / restart).",
+    note="Bounds: capacity 2-3, 3-5 messages, ids 1..3; operations inside the documented usage protocol only. The redis clauses rest on the RESP fake (itself checked against RespCmds.tla). One open known finding (redis Init(clean) counters)."),
+ "C16": dict(
+    level="model_checking", ref="DESIGN.md §4 C16, App. B.5",
+    technique="TLC exhaustive FedStream.tla / FedEmit.tla + transition-coverage replay on the real eventQueue / sessionMgr / initStream / eventStreamHandler through the verif export, with driver-controlled fake bidi streams",
+    text="FedStream.tla models one ordered pair of nodes at the grain of the code (Emit, Hello resume/clean + resync, Fetch, SrvRecv, SrvAck, CliAck, Break losing any suffix of both channels at any time incl. during the handshake and between send and "
+         "acknowledgement, restarts, node fail/rejoin); TLC checks AppliedIsPrefix / NoGapNoDup / QuiescentView on all schedules in the bound and every transition is replayed on the REAL federation objects with the network played by the driver; "
+         "applied events, the peer's view vs the node's reference-counted local set and queue contents are compared after each step.",
+    note="Cuts at message grain (the byte-level gRPC proxy variant was not built). One open known finding (clean Hello whose answer is lost; its repair is pinned by TestFederation_Hello). Batch and duplicate-filter constants (100) are never exhausted by the bounded histories."),
+ "C17": dict(
+    level="model_checking", ref="DESIGN.md §4 C17",
+    technique="TLC exhaustive FedRoute.tla + transition-coverage replay of the real sendMessage / OnMsgArrivedWrapper / OnWillPublishWrapper / receive path with recording peer queues and retained stores",
+    text="FedRoute.tla: 3 nodes, local subscriptions (plain, wildcard, shared, $), converged mirrored views; invariants ForwardedIffNeeded, NoEcho, GroupOnceFederationWide, RetainedEverywhere checked by TLC; every publication transition is replayed on real "
+         "Federation objects: the set of peers the message is queued for, the local delivery options, what each receiver delivers and the retained-store effect are compared with the specification.",
+    note="Three open known findings (share group spanning nodes: starved / served twice / retained served per node) - structural (the Message event carries no group information). Views are assumed converged (C16 covers convergence)."),
 }
 
 NOT_YET = {
